@@ -61,8 +61,10 @@ Theorem C08_count : forall c s o a,
   s_remote s = Some o -> create_answer c s = AOk a -> List.length (a_secs a) = List.length (f_secs o).
 Proof. exact answer_count. Qed.
 
-(* kinds and mids, section by section; the mids are the offered ones unless the final clearing applies
-   (LegacySip mode, or no BUNDLE offered and more than one section -- listed finding F26) *)
+(* kinds and mids, section by section; the mids are the offered ones (mids_kept: a BUNDLE group was
+   offered -- in every compatibility mode since ca1331b -- or, outside LegacySip mode, there is a single
+   section) unless the final clearing applies (no BUNDLE offered and LegacySip mode or more than one
+   section -- listed finding F26) *)
 Theorem C08_sections : forall c s o changed a,
   wfA (f_secs o) -> inv_state s -> compat_state s o -> applied s changed ->
   create_answer c (set_remote c s o changed) = AOk a ->
@@ -118,14 +120,23 @@ Theorem C08_rtcp_mux_policy : forall c s o a,
   Forall (fun x => a_mux x = true -> c_mux c = true /\ c_legacy c = false /\ is_rtp_kind (a_kind x) = true) (a_secs a).
 Proof. exact answer_rtcp_mux_policy. Qed.
 
-(* BUNDLE: a group is answered only if one was offered, and stays inside the offered group when that
-   group covers every section (listed finding F27 otherwise) *)
+(* BUNDLE: a group is answered only if one was offered (and then in every compatibility mode), and stays
+   inside the offered group when that group covers every section (listed finding F27 otherwise) *)
 Theorem C08_bundle : forall c s o changed a,
   wfA (f_secs o) -> inv_state s -> compat_state s o -> applied s changed ->
   (forall sec, In sec (f_secs o) -> In (o_mid sec) (List.concat (f_groups o))) ->
   create_answer c (set_remote c s o changed) = AOk a ->
-  v_bundle o a = true /\ (a_group a <> None -> f_groups o <> [] /\ c_legacy c = false).
+  v_bundle o a = true /\ (a_group a <> None -> f_groups o <> []).
 Proof. exact bundle_ok. Qed.
+
+(* an offered BUNDLE group is echoed over all sections with the offered mids, in every compatibility mode
+   (LegacySip included since ca1331b) *)
+Theorem C08_bundle_echo : forall c s o changed a,
+  wfA (f_secs o) -> inv_state s -> compat_state s o -> applied s changed ->
+  f_groups o <> [] -> f_secs o <> [] ->
+  create_answer c (set_remote c s o changed) = AOk a ->
+  a_group a = Some (map o_mid (f_secs o)) /\ map a_mid (a_secs a) = map o_mid (f_secs o).
+Proof. exact bundle_echo. Qed.
 
 Theorem C08_bundle_refuted :
   exists c o a, snd (negotiate c st_init o true) = AOk a /\ wfA (f_secs o) /\ v_bundle o a = false.
